@@ -56,3 +56,16 @@ func init() {
 		return 0
 	}
 }
+
+func init() {
+	subcommands["debug-loop"] = func(args []string) int {
+		sc := &loopScenario{Senders: 1, PerSender: 3, Sizes: []int{10}, BothWays: true, HoldMS: 11500}
+		ev, err := runLoopback(sc, 1)
+		fmt.Println("err", err)
+		for _, e := range ev {
+			b, _ := json.Marshal(e)
+			fmt.Println(string(b))
+		}
+		return 0
+	}
+}
